@@ -102,8 +102,8 @@ func (c *Ctx) c19Natives(n int) (lines, impl []string) {
 		switch form {
 		case "f00":
 			argc, nres = 0, 0
-		case "f01":
-			argc, nres = 0, 1
+		case "f01": // (any arity: the arguments are dropped unread, the result is delivered)
+			nres = 1
 		case "fN0":
 			nres = 0
 		case "fN1":
